@@ -355,6 +355,11 @@ func runCase(c map[string]any) (steps []map[string]any) {
 		st.mu.Lock()
 		obs["log"] = st.recs
 		st.recs = nil
+		pend := map[string]int{} /* reads offered to an output stream and not yet taken by its reader */
+		for sid, r := range readers {
+			pend[fmt.Sprint(sid)] = len(r.ch)
+		}
+		obs["pend"] = pend
 		obs["att"] = st.attached
 		for _, a := range st.attached {
 			attachedEver[a] = true
